@@ -129,7 +129,7 @@ impl World {
     }
 
     pub fn exec(&mut self, r: &Req) -> ImplResp {
-        let mut b = Request::builder().method(r.verb.as_str()).uri(Self::raw_path(&r.target));
+        let mut b = Request::builder().method(r.verb.as_str()).uri(r.raw.clone().unwrap_or_else(|| Self::raw_path(&r.target)));
         if let Some(ct) = r.ct {
             b = b.header(header::CONTENT_TYPE, if ct == Enc::Cbor { "application/cbor" } else { "application/json" });
         }
@@ -193,6 +193,7 @@ impl World {
         let mk = |method: &str, pvar: &str| Req {
             verb: "POST".into(),
             target: Target::Db { name: n.to_string(), pct: false },
+            raw: None,
             auth: auth.clone(),
             ct: Some(Enc::Cbor),
             accept: None,
